@@ -58,6 +58,8 @@ def fhex(x):
 
 
 def load_known():
+    if os.environ.get("VERIF_IGNORE_KNOWN"):  # tooling only (recording repro files of open findings)
+        return []
     try:
         with open(KNOWN_FILE) as fp:
             return json.load(fp)["findings"]
@@ -72,7 +74,7 @@ def match_known(known, prop, clause, fp):
     for k in known:
         if k.get("status") != "open" or k["property"] != prop:
             continue
-        if k["clause"] != clause:
+        if k["clause"] not in ("*", clause):
             continue
         m = k.get("match", {})
         if all(fp.get(key) == val for key, val in m.items()):
@@ -104,6 +106,7 @@ class Ctx:
         self.mission_s = 0.0
         self.clock_span = [None, None]
         self.checks = 0  # oracle evaluations
+        self.maxima = {}  # observed maxima of tolerance-bound quantities (calibration evidence)
 
     def ev(self, *fields):
         self.n += 1
@@ -119,6 +122,10 @@ class Ctx:
 
     def probe(self, name, k=1):
         self.probes[name] += k
+
+    def observe(self, name, value):
+        if value > self.maxima.get(name, -1.0):
+            self.maxima[name] = float(value)
 
     def state(self, *items):
         self.states.add(items)
@@ -138,7 +145,8 @@ class Ctx:
         k = match_known(self.known, self.prop, clause, fp)
         self.ev("VIOLATION", clause, json.dumps(fp, sort_keys=True), "known" if k else "new")
         if k is not None:
-            self.known_hits.append((k["id"], detail))
+            if sum(1 for kid, _ in self.known_hits if kid == k["id"]) < 3:
+                self.known_hits.append((k["id"], detail))
             return False
         self.violation = {"clause": clause, "fingerprint": fp, "detail": detail, "at_event": self.n}
         raise StopRun()
@@ -193,6 +201,7 @@ def execute_plan(prop, plan, keep_log=False, watchdog=120):
         "mission_s": ctx.mission_s,
         "clock_span": [str(c) if c else None for c in ctx.clock_span],
         "checks": ctx.checks,
+        "maxima": ctx.maxima,
         "harness_error": err,
     }
     if keep_log:
@@ -383,6 +392,7 @@ def run_batch(prop, tier, seed, workers=None):
         "digests": hashlib.sha256(),
         "clock_lo": None,
         "clock_hi": None,
+        "maxima": {},
     }
     samples = []
     violations = []
@@ -459,6 +469,9 @@ def run_batch(prop, tier, seed, workers=None):
         agg["mission_s"] += r["mission_s"]
         agg["checks"] += r["checks"]
         agg["events"] += r["events"]
+        for k, v in r.get("maxima", {}).items():
+            if v > agg["maxima"].get(k, -1.0):
+                agg["maxima"][k] = v
         agg["digests"].update(r["digest"].encode())
         lo, hi = r["clock_span"]
         if lo and (agg["clock_lo"] is None or lo < agg["clock_lo"]):
@@ -556,6 +569,8 @@ def write_evidence(prop, mod, tier, seed, agg, samples, wall, nviol, stopped_ear
         "real_vs_stub": getattr(mod, "REAL_VS_STUB", ""),
         "sampled_only_clauses": getattr(mod, "SAMPLED_ONLY", []),
         "known_findings_hit": {k: v[0] for k, v in sorted(agg["known"].items())},
+        "observed_maxima": {k: agg["maxima"][k] for k in sorted(agg["maxima"])},
+        "tolerances": getattr(mod, "TOLERANCES", {}),
         "batch_digest": agg["digests"].hexdigest(),
         "exhaustive": bool(getattr(mod, "EXHAUSTIVE", False)),
     }
